@@ -15,10 +15,11 @@ Two halves that must not be confused:
   `+12 sn`, `+16 una`, `+20 len`, next segment at `offset + 24 + len`) are used literally.
 -/
 import KcpVerif.Generated
+import KcpVerif.Model.Wrap
 
 namespace KcpVerif
 
-abbrev Bytes := List UInt8
+-- `Bytes` (= `List UInt8`) comes from Model/Wrap
 
 namespace Wire
 open KcpVerif.Gen
